@@ -2,10 +2,6 @@
 From DnsV Require Import Model.Text Model.Preproc.
 Open Scope N_scope.
 
-(* compact notation for the byte strings of generated cases: len bytes of n, little endian *)
-Fixpoint bN (len : nat) (n : N) : bytes :=
-  match len with O => [] | S k => n mod 256 :: bN k (n / 256) end.
-
 (* one DecodeLn -> MarshalMap + MarshalText step as observed.
    serr: 0 ok, 1 DecodeLn error, 2 MarshalMap error, 3 MarshalText error, 4 panic, 5 not run *)
 Record step := mkS { serr : N; stext : bytes; skv : list kv }.
@@ -180,7 +176,10 @@ Definition spec_ok (c : case) : bool :=
     let guard := forallb (wf_file_lineb o serial) file &&
                  ((pserial =? serial) || (pserial =? 0)) &&
                  match all_some (map rp_of_kv acc) with Some rps => forallb (rp_okb o) rps | None => false end in
-    if guard then negb pre_err && negb orig_err && negb p_err && dump_eqb orig pdump
+    if guard then negb pre_err && negb orig_err && negb p_err && dump_eqb orig pdump &&
+                  (* SOA lines are written with the serial filled in when the preprocessor has one *)
+                  ((pserial =? 0) ||
+                   forallb (fun l => negb (nth 0 l 0 =? 90) || nonempty (fld (fields l) 3)) pre)
     else (* a file the compiler rejects must not come out of the preprocessor as a file that compiles *)
       if orig_err then pre_err || p_err else true
   end.
